@@ -248,7 +248,7 @@ section Examples
 
 private def exOps : List (Op Nat) :=
   [.push ⟨4, 0⟩ 8, .push ⟨6, 60⟩ 2, .changePriority 1 0, .remove 2, .popFront, .getMut 5 (fun it => ⟨it.key, 7⟩),
-   .push ⟨2, 21⟩ 4, .pushIncrease ⟨6, 0⟩ 1, .convert, .popBack, .append #[(⟨9, 0⟩, 1)]]
+   .push ⟨2, 21⟩ 4, .pushIncrease ⟨6, 0⟩ 1, .convert, .popBack, .append (Store.fromVec #[(⟨9, 0⟩, 1)])]
 
 -- the hypotheses of `C03_step_refines` / `C03_step_total` / `C03_frame` / `C03_assigned`: a well-formed queue of
 -- each kind, a legal operation, a successful step (re-inserting a present item with another payload)
@@ -269,7 +269,8 @@ example : cont_okR (step ⟨.dpq, cont_exD⟩ .popBack) (fun r => cont_outEntry 
 example : ∀ op ∈ exOps, op.Legal := by
   intro op hop
   simp only [exOps, List.mem_cons, List.not_mem_nil, or_false] at hop
-  rcases hop with rfl | rfl | rfl | rfl | rfl | rfl | rfl | rfl | rfl | rfl | rfl <;> first | trivial | exact fun _ => rfl
+  rcases hop with rfl | rfl | rfl | rfl | rfl | rfl | rfl | rfl | rfl | rfl | rfl <;>
+    first | trivial | exact fun _ => rfl | (show Store.WF _; decide +kernel)
 example : cont_okR (run ⟨.pq, cont_ex5⟩ exOps) (fun r => r.1.kind = .dpq ∧ r.1.s.WF ∧ r.1.s.len = 5 ∧
     r.1.s.abs 1 = some (⟨1, 10⟩, 0) ∧ r.1.s.abs 2 = some (⟨2, 21⟩, 4) ∧ r.1.s.abs 3 = none ∧ r.1.s.abs 4 = none ∧
     r.1.s.abs 5 = some (⟨5, 7⟩, 3) ∧ r.1.s.abs 6 = some (⟨6, 60⟩, 2) ∧ r.1.s.abs 9 = some (⟨9, 0⟩, 1)) := by decide +kernel
